@@ -1578,6 +1578,12 @@ func zipAllInnerSubscriptions[T any](outerCtx context.Context, sources []Observa
 	onUpdate := func(ctx context.Context) {
 		mu.Lock()
 
+		if values == nil {
+			// torn down: a source that notifies from another goroutine was already inside its callback
+			mu.Unlock()
+			return
+		}
+
 		hasEmptyQueue := false
 
 		for i := range sources {
@@ -1599,6 +1605,12 @@ func zipAllInnerSubscriptions[T any](outerCtx context.Context, sources []Observa
 			destination.NextWithContext(ctx, result) // @TODO: Send the last context ?
 
 			mu.Lock()
+
+			if values == nil || completed == nil {
+				// the consumer unsubscribed inside the notification: the teardown has run
+				mu.Unlock()
+				return
+			}
 
 			for i := range sources {
 				if completed[i] && len(values[i]) == 0 {
